@@ -20,6 +20,9 @@ from .tokens.parenthesis import Parenthesis
 from .builder import AstBuilder
 
 
+_re_new_line = regex.compile(r'("(?:[^"]|"")*")|\n')
+
+
 class Parser:
     formula_check = regex.compile(
         r"""
@@ -39,7 +42,9 @@ class Parser:
 
     def ast(self, expression, context=None):
         try:
-            match = self.is_formula(expression.replace('\n', '')).groupdict()
+            match = self.is_formula(_re_new_line.sub(
+                lambda m: m.group(1) or '', expression
+            )).groupdict()  # Line feeds are layout, except inside a text.
             expr = match['name']
         except (AttributeError, KeyError):
             raise FormulaError(expression)
